@@ -202,61 +202,65 @@ theorem scanSingle_other {β : Type} (tS tM : Nat) (single : Order → Bytes →
   rw [unmarshalBOT_hdr o t srid bdy ht hs hb]
   simp only [if_neg hne, if_neg hne']
 
-theorem unmarshalMultiF_enc {β : Type} (tS tM : Nat) (single : Order → Bytes → R β) (stride : β → Nat)
-    (enc : β → Bytes) (fuel : Nat) (o : Order) (xs : List β) (rest : Bytes)
+theorem scanMember_single {β : Type} (tS : Nat) (single : Order → Bytes → R β) (o : Order) (srid : Nat)
+    (bdy : Bytes) (x : β) (ht : TC tS) (hs : srid < 2 ^ 32) (hb : 1 ≤ bdy.length) (h : single o bdy = .ok x) :
+    scanMember tS single (orderByte o :: (hdr o tS srid ++ bdy)) = .ok (x, srid) := by
+  unfold scanMember
+  rw [unmarshalBOT_hdr o tS srid bdy ht hs hb]
+  simp only [ne_eq, not_true_eq_false, if_false, h]
+
+theorem unmarshalMultiF_enc {β : Type} (tS : Nat) (single : Order → Bytes → R β) (stride : β → Nat)
+    (enc : β → Bytes) (o : Order) (xs : List β) (rest : Bytes)
     (hlen : xs.length < 2 ^ 32)
-    (hscan : ∀ x ∈ xs, ∀ multi rest', scanSingle tS tM single multi (enc x ++ rest') = .ok (x, 0))
+    (hscan : ∀ x ∈ xs, ∀ rest', scanMember tS single (enc x ++ rest') = .ok (x, 0))
     (hstride : ∀ x ∈ xs, (enc x).length = stride x) :
-    unmarshalMultiF tS tM single stride (fuel + 1) o (u32 o xs.length ++ (xs.flatMap enc ++ rest)) = .ok xs := by
+    unmarshalMultiF tS single stride o (u32 o xs.length ++ (xs.flatMap enc ++ rest)) = .ok xs := by
   unfold unmarshalMultiF
   have h1 : ¬ (u32 o xs.length ++ (xs.flatMap enc ++ rest)).length < 4 := by
     simp only [List.length_append, u32_length]; omega
   rw [if_neg h1, rd32_u32' _ _ _ hlen, drop_u32]
-  exact memberLoop_enc _ _ enc xs rest (fun x hx rest' => hscan x hx _ rest') hstride
+  exact memberLoop_enc _ _ enc xs rest hscan hstride
 
 /-! ### byte path: the three multi decoders on encoder output -/
 
-theorem scanSingle_encPoint0 (multi : Order → Bytes → R (List (Pt UInt64))) (o : Order) (p : Pt UInt64)
-    (rest : Bytes) :
-    scanSingle 1 4 unmarshalPoint multi (encPoint o 0 p ++ rest) = .ok (p, 0) := by
+theorem scanMember_encPoint0 (o : Order) (p : Pt UInt64) (rest : Bytes) :
+    scanMember 1 unmarshalPoint (encPoint o 0 p ++ rest) = .ok (p, 0) := by
   rw [encPoint_eq, List.cons_append, List.append_assoc]
-  exact scanSingle_single 1 4 _ _ o 0 _ p (by simp [TC]) (by decide)
+  exact scanMember_single 1 _ o 0 _ p (by simp [TC]) (by decide)
     (by simp only [List.length_append, encPt_length]; omega) (unmarshalPoint_encPt o p rest)
 
-theorem scanSingle_encLineString0 (multi : Order → Bytes → R (List (List (Pt UInt64)))) (o : Order)
-    (ps : List (Pt UInt64)) (rest : Bytes) (h : ps.length < 2 ^ 32) :
-    scanSingle 2 5 unmarshalPoints multi (encLineString o 0 ps ++ rest) = .ok (ps, 0) := by
+theorem scanMember_encLineString0 (o : Order) (ps : List (Pt UInt64)) (rest : Bytes) (h : ps.length < 2 ^ 32) :
+    scanMember 2 unmarshalPoints (encLineString o 0 ps ++ rest) = .ok (ps, 0) := by
   rw [encLineString_eq, List.cons_append, List.append_assoc]
-  exact scanSingle_single 2 5 _ _ o 0 _ ps (by simp [TC]) (by decide)
+  exact scanMember_single 2 _ o 0 _ ps (by simp [TC]) (by decide)
     (by simp only [List.length_append, encRingBody_length]; omega) (unmarshalPoints_enc o ps rest h)
 
-theorem scanSingle_encPolygon0 (multi : Order → Bytes → R (List (List (List (Pt UInt64))))) (o : Order)
-    (rs : List (List (Pt UInt64))) (rest : Bytes) (hl : rs.length < 2 ^ 32)
-    (h : ∀ r ∈ rs, r.length < 2 ^ 32) :
-    scanSingle 3 6 unmarshalPolygon multi (encPolygon o 0 rs ++ rest) = .ok (rs, 0) := by
+theorem scanMember_encPolygon0 (o : Order) (rs : List (List (Pt UInt64))) (rest : Bytes)
+    (hl : rs.length < 2 ^ 32) (h : ∀ r ∈ rs, r.length < 2 ^ 32) :
+    scanMember 3 unmarshalPolygon (encPolygon o 0 rs ++ rest) = .ok (rs, 0) := by
   rw [encPolygon_eq, List.cons_append, List.append_assoc]
-  exact scanSingle_single 3 6 _ _ o 0 _ rs (by simp [TC]) (by decide)
+  exact scanMember_single 3 _ o 0 _ rs (by simp [TC]) (by decide)
     (by simp only [polyBody, List.length_append, u32_length]; omega) (unmarshalPolygon_enc o rs rest hl h)
 
-theorem unmarshalMultiPoint_enc (fuel : Nat) (o : Order) (ps : List (Pt UInt64)) (rest : Bytes)
+theorem unmarshalMultiPoint_enc (o : Order) (ps : List (Pt UInt64)) (rest : Bytes)
     (h : ps.length < 2 ^ 32) :
-    unmarshalMultiPoint (fuel + 1) o (u32 o ps.length ++ (ps.flatMap (encPoint o 0) ++ rest)) = .ok ps :=
-  unmarshalMultiF_enc 1 4 unmarshalPoint (fun _ => 21) (encPoint o 0) fuel o ps rest h
-    (fun p _ multi rest' => scanSingle_encPoint0 multi o p rest')
+    unmarshalMultiPoint o (u32 o ps.length ++ (ps.flatMap (encPoint o 0) ++ rest)) = .ok ps :=
+  unmarshalMultiF_enc 1 unmarshalPoint (fun _ => 21) (encPoint o 0) o ps rest h
+    (fun p _ rest' => scanMember_encPoint0 o p rest')
     (fun p _ => encPoint0_length o p)
 
-theorem unmarshalMultiLineString_enc (fuel : Nat) (o : Order) (ls : List (List (Pt UInt64))) (rest : Bytes)
+theorem unmarshalMultiLineString_enc (o : Order) (ls : List (List (Pt UInt64))) (rest : Bytes)
     (h : ls.length < 2 ^ 32) (hl : ∀ l ∈ ls, l.length < 2 ^ 32) :
-    unmarshalMultiLineString (fuel + 1) o (u32 o ls.length ++ (ls.flatMap (encLineString o 0) ++ rest)) = .ok ls :=
-  unmarshalMultiF_enc 2 5 unmarshalPoints (fun ls => 16 * ls.length + 9) (encLineString o 0) fuel o ls rest h
-    (fun l hm multi rest' => scanSingle_encLineString0 multi o l rest' (hl l hm))
+    unmarshalMultiLineString o (u32 o ls.length ++ (ls.flatMap (encLineString o 0) ++ rest)) = .ok ls :=
+  unmarshalMultiF_enc 2 unmarshalPoints (fun ls => 16 * ls.length + 9) (encLineString o 0) o ls rest h
+    (fun l hm rest' => scanMember_encLineString0 o l rest' (hl l hm))
     (fun l _ => encLineString0_length o l)
 
-theorem unmarshalMultiPolygon_enc (fuel : Nat) (o : Order) (ps : List (List (List (Pt UInt64)))) (rest : Bytes)
+theorem unmarshalMultiPolygon_enc (o : Order) (ps : List (List (List (Pt UInt64)))) (rest : Bytes)
     (h : ps.length < 2 ^ 32) (hp : ∀ p ∈ ps, p.length < 2 ^ 32 ∧ ∀ r ∈ p, r.length < 2 ^ 32) :
-    unmarshalMultiPolygon (fuel + 1) o (u32 o ps.length ++ (ps.flatMap (encPolygon o 0) ++ rest)) = .ok ps :=
-  unmarshalMultiF_enc 3 6 unmarshalPolygon polyStride (encPolygon o 0) fuel o ps rest h
-    (fun p hm multi rest' => scanSingle_encPolygon0 multi o p rest' (hp p hm).1 (hp p hm).2)
+    unmarshalMultiPolygon o (u32 o ps.length ++ (ps.flatMap (encPolygon o 0) ++ rest)) = .ok ps :=
+  unmarshalMultiF_enc 3 unmarshalPolygon polyStride (encPolygon o 0) o ps rest h
+    (fun p hm rest' => scanMember_encPolygon0 o p rest' (hp p hm).1 (hp p hm).2)
     (fun p _ => encPolygon0_length o p)
 
 /-! ### stream decoder: consume lemmas -/
@@ -523,27 +527,25 @@ theorem body_bound (o : Order) (a b : Pt UInt64) :
     unmarshalPolygon o (body o (.bound a b)) = .ok [boundRing a b] :=
   body_polygon o [boundRing a b] (by simp) (by simp [boundRing])
 
-theorem body_multiPoint (n : Nat) (o : Order) (ps : List (Pt UInt64)) (h : ps.length < 2 ^ 32) :
-    unmarshalMultiPoint (n + 1) o (body o (.multiPoint ps)) = .ok ps := by
-  have := unmarshalMultiPoint_enc n o ps [] h
+theorem body_multiPoint (o : Order) (ps : List (Pt UInt64)) (h : ps.length < 2 ^ 32) :
+    unmarshalMultiPoint o (body o (.multiPoint ps)) = .ok ps := by
+  have := unmarshalMultiPoint_enc o ps [] h
   simpa only [List.append_nil, body] using this
 
-theorem body_multiLineString (n : Nat) (o : Order) (ls : List (List (Pt UInt64)))
+theorem body_multiLineString (o : Order) (ls : List (List (Pt UInt64)))
     (h : ls.length < 2 ^ 32) (hl : ∀ l ∈ ls, l.length < 2 ^ 32) :
-    unmarshalMultiLineString (n + 1) o (body o (.multiLineString ls)) = .ok ls := by
-  have := unmarshalMultiLineString_enc n o ls [] h hl
+    unmarshalMultiLineString o (body o (.multiLineString ls)) = .ok ls := by
+  have := unmarshalMultiLineString_enc o ls [] h hl
   simpa only [List.append_nil, body] using this
 
-theorem body_multiPolygon (n : Nat) (o : Order) (ps : List (List (List (Pt UInt64))))
+theorem body_multiPolygon (o : Order) (ps : List (List (List (Pt UInt64))))
     (h : ps.length < 2 ^ 32) (hp : ∀ p ∈ ps, p.length < 2 ^ 32 ∧ ∀ r ∈ p, r.length < 2 ^ 32) :
-    unmarshalMultiPolygon (n + 1) o (body o (.multiPolygon ps)) = .ok ps := by
-  have := unmarshalMultiPolygon_enc n o ps [] h hp
+    unmarshalMultiPolygon o (body o (.multiPolygon ps)) = .ok ps := by
+  have := unmarshalMultiPolygon_enc o ps [] h hp
   simpa only [List.append_nil, body] using this
 
-theorem scanPoint_def (f : Nat) : scanPoint f = scanSingle 1 4 unmarshalPoint (unmarshalMultiPoint f) := rfl
-theorem scanLineString_def (f : Nat) :
-    scanLineString f = scanSingle 2 5 unmarshalPoints (unmarshalMultiLineString f) := rfl
-theorem scanPolygon_def (f : Nat) :
-    scanPolygon f = scanSingle 3 6 unmarshalPolygon (unmarshalMultiPolygon f) := rfl
+theorem scanPoint_def : scanPoint = scanSingle 1 4 unmarshalPoint unmarshalMultiPoint := rfl
+theorem scanLineString_def : scanLineString = scanSingle 2 5 unmarshalPoints unmarshalMultiLineString := rfl
+theorem scanPolygon_def : scanPolygon = scanSingle 3 6 unmarshalPolygon unmarshalMultiPolygon := rfl
 
 end Orb.WKB
